@@ -55,6 +55,13 @@ pub fn run() {
                     let r = rx.try_recv_timeout(Duration::from_micros(nums[0]));
                     out.push(json!({"op": op, "out": cls(r), "us": t0.elapsed().as_micros() as u64}))
                 },
+                "I" => {
+                    // a signal with a handler reaches the thread while it waits: poll() fails with EINTR (injected by the interposer)
+                    eintr_every(1);
+                    let r = rx.try_recv_timeout(Duration::from_micros(nums[0]));
+                    eintr_every(0);
+                    out.push(json!({"op": op, "out": cls(r), "us": t0.elapsed().as_micros() as u64}))
+                },
                 "b" => {
                     let r = rx.recv().map_err(TryRecvError::IpcError);
                     out.push(json!({"op": op, "out": cls(r), "us": t0.elapsed().as_micros() as u64}))
